@@ -512,6 +512,40 @@ def _prefixes(tree: ast.Module) -> dict[str, str]:
     return out
 
 
+def _reference_ids(tree: ast.Module, pre: dict[str, str]) -> tuple[bool, bool]:
+    """(the symbol of an initial assignment is the declared id of its component, math refers to components by their ids)"""
+    syms = set()
+    for fname in ("_create_sbml_variables", "_create_sbml_parameters"):
+        for n in ast.walk(_fn(tree, fname)):
+            if isinstance(n, ast.Call) and isinstance(n.func, ast.Attribute) and n.func.attr == "setSymbol":
+                syms.add(ast.unparse(n.args[0]))
+    if syms == {"ids[name]"}:
+        ia_declared = True
+    elif syms == {f"_convert_id_to_sbml(id_=name, prefix='{pre['init']}')"}:
+        ia_declared = False
+    else:
+        raise Unsupported(f"symbol of initial assignments: {sorted(syms)}")
+    body = "\n".join(ast.unparse(st) for st in _fn(tree, "_sbmlify_fn").body if not (isinstance(st, ast.Expr) and isinstance(st.value, ast.Constant)))
+    if body == "return _tree_to_sbml(get_fn_ast(fn), args=user_args)":
+        math_ids = False
+    elif body == "return _tree_to_sbml(get_fn_ast(fn), args=[ids.get(i, i) for i in user_args])":
+        math_ids = True
+    else:
+        raise Unsupported(f"_sbmlify_fn: {body}")
+    if ia_declared or math_ids:
+        want = "ids = {}\n" + "\n".join(
+            f"for name in model.{getter}():\n    ids[name] = _convert_id_to_sbml(id_=name, prefix='{pre[k]}')"
+            for getter, k in (("get_raw_parameters", "param"), ("get_raw_variables", "var"), ("get_raw_derived", "rule"),
+                              ("get_raw_reactions", "rxn"))) + "\nreturn ids"
+        got = "\n".join(ast.unparse(st) for st in _fn(tree, "_sbml_ids").body if not (isinstance(st, ast.Expr) and isinstance(st.value, ast.Constant)))
+        if got != want:
+            raise Unsupported(f"_sbml_ids: the ids are not the declared ones (prefix per kind):\n{got}")
+        m2s = ast.unparse(_fn(tree, "_model_to_sbml"))
+        if "ids = _sbml_ids(model)" not in m2s:
+            raise Unsupported("_model_to_sbml: ids = _sbml_ids(model)")
+    return ia_declared, math_ids
+
+
 def _export_order(tree: ast.Module) -> list[str]:
     stage = {"_create_sbml_parameters": ".params", "_create_sbml_derived_parameters": ".derivedParams",
              "_create_sbml_variables": ".vars", "_create_sbml_derived_variables": ".derivedVars",
@@ -568,6 +602,7 @@ def render(repo: Path) -> str:
     pre = _prefixes(tree)
     order_m = _export_order(tree)
     sp = _species_attrs(tree)
+    ia_declared, math_ids = _reference_ids(tree, pre)
 
     def pair(kv):
         return f'("{kv[0]}", {kv[1]})'
@@ -609,6 +644,8 @@ def iaSetter : String := "{setter}"
 def bodyFirstReturn : Bool := {str(first_ret).lower()}
 def refFresh : Bool := {str(ref_fresh).lower()}
 def refSuffix : String := "{ref_suffix}"
+def iaSymbolDeclared : Bool := {str(ia_declared).lower()}
+def mathUsesIds : Bool := {str(math_ids).lower()}
 def refAvoidsCompartments : Bool := {str(bool(ref_fresh and _ref_name.avoids_compartments)).lower()}
 def prefixParam : String := "{pre['param']}"
 def prefixVar : String := "{pre['var']}"
